@@ -96,6 +96,9 @@ prepare_next() {
     cd $POLICYDB
 
     # Cleanup leftovers from previous unsuccessful build of this policy.
+    # Remove 'failed' marker first, because directory 'next' would be taken
+    # as already processed, if this run is aborted.
+    rm -f failed
     rm -rf $NEXT
 
     # Create temporary directory for new policy.
@@ -153,11 +156,6 @@ prepare_next() {
 
 # Compiled successfully.
 handle_success() {
-    # Remove 'failed' marker.
-    # Must be removed early, because directory 'next' would be taken
-    # as already processed, if this run is aborted.
-    rm -f $POLICYDB/failed
-
     # Update POLICY file of current version.
     cd $PSRC
     echo "# $POLICY # Current policy, don't edit manually!" > POLICY
